@@ -3,7 +3,7 @@
     refuted in Coq; the denotation clauses are decided by evaluating [den] on
     the implementation's observed results.  Only statements. *)
 Require Import AT.Model.Base AT.Model.Rose AT.Model.Nav AT.Model.Resolver AT.Spec.ResolverSpec.
-Require AT.Proofs.GlobProofs.
+Require AT.Proofs.GlobProofs AT.Proofs.GlobDen.
 Import AT.Proofs.GlobProofs.
 
 (** within one name: the regex the code compiles from a pattern (table, (?ms)
@@ -48,10 +48,25 @@ Proof.
 Qed.
 Print Assumptions C08_strict_same_or_raises_refuted.
 
-(** Kept visible, not proved: the relaxed result is the denotation (as a set),
-    in pre-order without '**'/'..', duplicate free unless a '..' follows a name. *)
-Definition C08_relaxed_den_full : Prop :=
-  forall nm ic t comps p x, In x (match glob_rec nm ic true t comps p with Ok l => l | _ => [] end) <-> In x (den nm ic t comps p).
+(** relaxed mode never raises ... *)
+Theorem C08_relaxed_total : forall nm ic t comps p, exists l, glob_rec nm ic true t comps p = Ok l.
+Proof. exact AT.Proofs.GlobDen.relaxed_total. Qed.
+Print Assumptions C08_relaxed_total.
+(** ... and the result contains exactly the nodes the pattern denotes: '..'
+    the parent, '' and '.' the node itself, '**' the node and all of its
+    descendants, any other component the children whose name the wildcard
+    pattern matches *)
+Theorem C08_relaxed_den : forall nm ic t comps p x,
+  In x (AT.Proofs.GlobDen.gl nm ic t comps p) <-> In x (den nm ic t comps p).
+Proof. exact AT.Proofs.GlobDen.relaxed_den. Qed.
+Print Assumptions C08_relaxed_den.
+
+(** Kept visible, not proved: pre-order of the relaxed result without '**'/'..',
+    and absence of duplicates unless a '..' follows a name (decided on observed
+    results by Corr/C08.v). *)
+Definition C08_relaxed_order_full : Prop :=
+  forall nm ic t comps p, Forall (fun c => str_eqb c s_dotdot = false /\ str_eqb c s_starstar = false) comps ->
+    NoDup (AT.Proofs.GlobDen.gl nm ic t comps p).
 
 Example C08_example :
   let t := T 0 [T 1 [T 3 []]; T 2 []] in
